@@ -30,6 +30,15 @@ CHECKS = {
    text='Bounded exhaustive exploration of (object, rigid motion, card spelling): 16 object kinds x 2 displacements x 27 rotations (all 24 axis-permuting/flipping rotations plus three generic ones) for TRn on the surface card and for cell TRCL, and all spellings (12/13/3 entries, *TR, inline and starred TRCL, implicit surfaces referenced negatively, positively or both) over a 6-rotation subset; each emitted surface is identified as the image f(B(x-O)) of the reference polynomial and the probe volumes are compared on a lattice; abbreviated matrices (9/6/5/3 entries, J placeholders, rows or columns) are recovered from the written planes and must be proper rotations reproducing every supplied entry.',
    note='Trusted: MCNP TR semantics (DESIGN 5). Rotations and displacements are covered at the alphabet values only.',
    tech='explicit enumeration of objects x motions x spellings; polynomial identification of the moved surface + lattice sign comparison'),
+
+ 'C05': dict(cat='model_checking', ref='4/C05',
+   text='Bounded exhaustive exploration of universe trees (depth 1-3, 2-3 cells per universe, reuse of one universe in two containers, per-level transformations in five motions x five spellings, container TRCL with/without FILL transformation, universe cells with TRCL, six option sets), all choices deviation-bounded and iterated; every deck is converted with the real entry point and compared with the reference locate() - owner volume and (filler, container) provenance chain - at one witness in every cell of the joint arrangement of all reference planes in all frames and all planes of the file.',
+   note='Trusted: FILL/TRCL precedence as characterised upstream (DESIGN 5), provenance comment format, PEG shim. Filler-cell importances are 1. Bound on deviations reported in the evidence.',
+   tech='explicit choice-tree enumeration (deviation-bounded) of hierarchical decks against a reference locate(); complete plane-arrangement witnesses'),
+ 'C09': dict(cat='model_checking', ref='4/C09',
+   text='Bounded exhaustive exploration of materials x density spellings on level-0 layouts, on the C05 universe trees and on LIKE n BUT MAT/RHO cards; for every arrangement witness the GEOMCOMP line listing the containing volume must name the composition of the reference lowest-level owner cell (void -> m0), one name per (material, density class), spelling-equivalent densities sharing and numerically different ones never sharing, and the COMPOSITION entry must carry the density value.',
+   note='Trusted: spelling classes = trailing zeros of the fraction and exponent marker e/E/d/D/omitted over identical digits; other respellings (zero exponent, zeros inside the exponent) are accepted either way. Geometry semantics as C05.',
+   tech='explicit choice-tree enumeration of decks; GEOMCOMP/COMPOSITION joined with the geometry evaluator at complete witnesses'),
 }
 NA_REASON = 'check not built yet in this build round (planned, see DESIGN.md section 4); no claim is made'
 
